@@ -61,7 +61,7 @@ theorem short_header_fails (file : List Nat) (h : file.length ≤ 34) :
         | error e => exact ⟨e, rfl⟩
         | ok c => exact ⟨_, rfl⟩
   obtain ⟨err, he⟩ := hp
-  exact ⟨err, by unfold loadFile; rw [he]; rfl⟩
+  exact ⟨err, by unfold loadFile; rw [he]⟩
 
 theorem empty_file_fails : loadFile [] = .error .ValueError := by decide
 
